@@ -56,11 +56,8 @@ def Range.isInRangeWith (awo : Int → Int → Int) (r : Range) (t : Int) : Bool
 
 def Range.isInRange (r : Range) (t : Int) : Bool := r.isInRangeWith addWeekdayOffset t
 
-/-- `IsInSameRange` for whole-second instants -/
-def Range.isInSameRangeWith (awo : Int → Int → Int) (r : Range) (a b : Int) : Bool :=
-  if !(r.isInRangeWith awo a && r.isInRangeWith awo b) then false else
-  let t1 := if b < a then b else a
-  let t2 := if b < a then a else b
+/-- the `sessionEnd` instant `IsInSameRange` computes from the earlier instant -/
+def Range.sessionEnd (r : Range) (t1 : Int) : Int :=
   let t1Time := todOf t1
   let dayOffset : Int :=
     match r.endDay with
@@ -69,8 +66,14 @@ def Range.isInSameRangeWith (awo : Int → Int → Int) (r : Range) (a b : Int) 
       if ed < weekday t1 then 7 + (ed - weekday t1)
       else if weekday t1 = ed then (if r.endS ≤ t1Time then 7 else 0)
       else ed - weekday t1
-  let sessionEnd := (dayOf t1 + dayOffset) * 86400 + r.endS
-  decide (t2 < sessionEnd)
+  (dayOf t1 + dayOffset) * 86400 + r.endS
+
+/-- `IsInSameRange` for whole-second instants -/
+def Range.isInSameRangeWith (awo : Int → Int → Int) (r : Range) (a b : Int) : Bool :=
+  if !(r.isInRangeWith awo a && r.isInRangeWith awo b) then false else
+  let t1 := if b < a then b else a
+  let t2 := if b < a then a else b
+  decide (t2 < r.sessionEnd t1)
 
 def Range.isInSameRange (r : Range) (a b : Int) : Bool := r.isInSameRangeWith addWeekdayOffset a b
 
@@ -80,5 +83,6 @@ def Range.wf (r : Range) : Prop :=
   ∧ (∀ w ∈ r.weekdays, 0 ≤ w ∧ w < 7)
   ∧ (∀ d, r.startDay = some d → 0 ≤ d ∧ d < 7) ∧ (∀ d, r.endDay = some d → 0 ≤ d ∧ d < 7)
   ∧ (r.startDay.isSome = r.endDay.isSome)
+  ∧ (r.startDay.isSome → r.weekdays = [])   -- the factory refuses Weekdays together with StartDay/EndDay
 
 end Qfx.TR
